@@ -221,6 +221,9 @@ func g7fillLeaf(r g7rnd, v reflect.Value) {
 	}
 }
 
+// g7force: populate everything (every slice gets an element, every one-of an alternative, every container is entered)
+var g7force bool
+
 // g7fill mutates v at random through every public mutator it finds (recursively)
 func g7fill(r g7rnd, v reflect.Value, depth int) {
 	defer func() { _ = recover() }() // invalid one-of wrappers
@@ -247,7 +250,7 @@ func g7fill(r g7rnd, v reflect.Value, depth int) {
 			if depth >= 7 && k > 1 { // keep deep payload trees small
 				k = 1
 			}
-			if k == 0 && int(v.MethodByName("Len").Call(nil)[0].Int()) == 0 && r.IntN(4) != 0 {
+			if k == 0 && int(v.MethodByName("Len").Call(nil)[0].Int()) == 0 && (g7force || r.IntN(4) != 0) {
 				k = 1
 			}
 			for i := k; i > 0; i-- {
@@ -256,7 +259,7 @@ func g7fill(r g7rnd, v reflect.Value, depth int) {
 		}
 		n := int(v.MethodByName("Len").Call(nil)[0].Int())
 		for i := 0; i < n; i++ {
-			if r.IntN(3) != 0 {
+			if g7force || r.IntN(3) != 0 {
 				g7fill(r, v.MethodByName("At").Call([]reflect.Value{reflect.ValueOf(i)})[0], depth+1)
 			}
 		}
@@ -279,7 +282,7 @@ func g7fill(r g7rnd, v reflect.Value, depth int) {
 			}
 		}
 	}
-	if len(selectors) > 0 && r.IntN(2) == 0 { // one-of: select ONE alternative at random
+	if len(selectors) > 0 && (g7force || r.IntN(2) == 0) { // one-of: select ONE alternative at random
 		v.MethodByName(selectors[r.IntN(len(selectors))]).Call(nil)
 	}
 	for _, n := range names { // owned containers and nested messages
@@ -287,7 +290,7 @@ func g7fill(r g7rnd, v reflect.Value, depth int) {
 		if g7skip[n] || m.Type().NumIn() != 0 || m.Type().NumOut() != 1 || strings.HasPrefix(n, "SetEmpty") || strings.HasPrefix(n, "AppendEmpty") {
 			continue
 		}
-		if ot := m.Type().Out(0); (g7leaf(ot) || g7wrapper(ot)) && r.IntN(4) != 0 {
+		if ot := m.Type().Out(0); (g7leaf(ot) || g7wrapper(ot)) && (g7force || r.IntN(4) != 0) {
 			func() {
 				defer func() { _ = recover() }()
 				g7fill(r, m.Call(nil)[0], depth+1)
@@ -322,7 +325,10 @@ func g7valid(c reflect.Value) bool {
 		}
 		for _, n := range g7methods(t) {
 			m := c.MethodByName(n)
-			if !g7skip[n] && m.Type().NumIn() == 0 && m.Type().NumOut() == 1 && g7basic(m.Type().Out(0)) {
+			if g7skip[n] || m.Type().NumIn() != 0 || m.Type().NumOut() != 1 || strings.HasPrefix(n, "SetEmpty") || strings.HasPrefix(n, "AppendEmpty") {
+				continue
+			}
+			if ot := m.Type().Out(0); g7basic(ot) || g7leaf(ot) || g7wrapper(ot) { // an accessor of a wrapper without orig dereferences nil
 				m.Call(nil)
 			}
 		}
@@ -443,23 +449,75 @@ func g7mutators(r g7rnd, v reflect.Value) (names []string, calls []func()) {
 var g7visited = map[string]int{}
 
 // g7roSweep: EVERY mutator at EVERY position reachable through the accessors of a read-only payload must panic
-func g7roSweep(r g7rnd, v reflect.Value, path string, depth int, report func(call string), count *int) {
+func g7roSweep(r g7rnd, v reflect.Value, path string, depth int, report func(sig, call string), count *int) {
 	if depth > 16 {
 		return
 	}
+	t := v.Type()
+	tn := t.Name()
+	own := func() string { return g7str(v) }
+	small := len(own()) < 6000
+	// (1) every mutator at this position must panic and change nothing
 	names, calls := g7mutators(r, v)
-	g7visited[v.Type().Name()] += len(calls)
+	g7visited[tn] += len(calls)
+	before := own()
 	for i, c := range calls {
 		*count++
 		if !g7panics(c) {
-			report(path + "." + names[i])
+			report("C07/allmsgs/mutator-on-read-only-did-not-panic", path+"."+names[i])
+		}
+		if small {
+			if now := own(); now != before {
+				report("C07/readonly/panicking-op-changed-something/"+tn+"."+names[i], path+"."+names[i])
+				before = now
+			}
+		}
+	}
+	if !small && own() != before {
+		report("C07/readonly/panicking-op-changed-something/"+tn+".*", path)
+	}
+	// (2) readers keep working: every getter of a valid position, and CopyTo FROM the read-only value into a mutable,
+	// arbitrarily pre-filled destination (how a consumer gets its mutable clone): must not panic, must yield an equal copy;
+	// if it does panic it must at least have left the destination alone
+	if !g7leaf(t) && !(g7has(t, "Len") && g7has(t, "At")) {
+		for _, n := range g7methods(t) {
+			m := v.MethodByName(n)
+			if !g7skip[n] && m.Type().NumIn() == 0 && m.Type().NumOut() == 1 && g7basic(m.Type().Out(0)) {
+				if g7panics(func() { m.Call(nil) }) {
+					report("C07/readonly/reader-panicked/"+tn+"."+n, path+"."+n)
+				}
+			}
+		}
+	}
+	if mk, found := g7ctor[t]; found && g7has(t, "CopyTo") {
+		dst := reflect.ValueOf(mk())
+		g7fill(r, dst, 8)
+		d0 := g7str(dst)
+		g7copied[tn]++
+		if g7panics(func() { v.MethodByName("CopyTo").Call([]reflect.Value{dst}) }) {
+			report("C07/readonly/reader-panicked/"+tn+".CopyTo", path+".CopyTo(<mutable destination>)")
+			if g7str(dst) != d0 {
+				report("C07/readonly/panicking-op-changed-something/"+tn+".CopyTo", path+".CopyTo(<mutable destination>)")
+			}
+		} else if got := g7str(dst); got != before {
+			report("C07/allmsgs/copy-from-read-only-differs-from-source/"+tn, path+".CopyTo want="+before+" got="+got)
+		} else if g7panics(func() { g7fill(r, dst, 8) }) { // the clone is mutable
+			report("C07/allmsgs/clone-of-read-only-is-not-mutable/"+tn, path)
+		}
+		if own() != before {
+			report("C07/readonly/reader-changed-read-only-data/"+tn+".CopyTo", path)
 		}
 	}
 	next, labels := g7children(v)
 	for i, c := range next {
+		if strings.HasPrefix(labels[i], "Exemplars") {
+			g7copied["exemplars_under_"+tn]++
+		}
 		g7roSweep(r, c, path+"."+labels[i], depth+1, report, count)
 	}
 }
+
+var g7copied = map[string]int{}
 
 // constructors of values needed as arguments (fresh sources / destinations)
 var g7ctor = map[reflect.Type]func() any{}
@@ -548,22 +606,31 @@ func TestVerifC07AllMsgs(t *testing.T) {
 			out.Linef("stat moves 1")
 		}
 		if g7has(src.Type(), "MarkReadOnly") { // payload: random mutators at random positions of a read-only payload
-			p := reflect.ValueOf(ent.mk())
-			for i := 0; i < 3; i++ {
+			for inst := 0; inst < 1; inst++ {
+				p := reflect.ValueOf(ent.mk())
+				for i := 0; i < 2; i++ {
+					g7fill(rnd, p, 0)
+				}
+				g7force = true // then populate everything, so that every accessor of the tree leads somewhere
 				g7fill(rnd, p, 0)
+				g7force = false
+				before := g7str(p)
+				p.MethodByName("MarkReadOnly").Call(nil)
+				count := 0
+				g7roSweep(rnd, p, p.Type().Name(), 0, func(sig, call string) { out.Linef("viol sig=%s type=%s call=%s", sig, ent.name, call) }, &count)
+				out.Linef("stat ro_mutator_calls %d", count)
+				if got := g7str(p); got != before {
+					viol("read-only-payload-changed", "")
+				}
 			}
-			before := g7str(p)
-			p.MethodByName("MarkReadOnly").Call(nil)
-			count := 0
-			g7roSweep(rnd, p, p.Type().Name(), 0, func(call string) { viol("mutator-on-read-only-did-not-panic", "call="+call) }, &count)
-			out.Linef("stat ro_mutator_calls %d", count)
 			for k, n := range g7visited {
 				out.Linef("stat ro_at_%s %d", k, n)
 			}
 			g7visited = map[string]int{}
-			if got := g7str(p); got != before {
-				viol("read-only-payload-changed", "")
+			for k, n := range g7copied {
+				out.Linef("stat ro_copy_from_%s %d", k, n)
 			}
+			g7copied = map[string]int{}
 		}
 		out.Linef("nt")
 		out.Linef("end")
